@@ -193,7 +193,13 @@ func (pc *vlpPC) Write(d datagram) error {
 	if n.stopped {
 		copies = 0 // torn down (vlpStop): e.g. the CONNECTION_CLOSE a conn loop still writes after Abort
 	}
-	n.wg.Add(copies) // under mu, ordered before vlpStop's wg.Wait
+	if copies > 0 {
+		// under mu, ordered before vlpStop's wg.Wait. Never Add(0): inside a bubble even a
+		// zero Add re-marks the WaitGroup as bubble-associated, and one issued after the
+		// counter reached zero makes a Wait that is just returning panic ("WaitGroup is
+		// reused before previous Wait has returned").
+		n.wg.Add(copies)
+	}
 	n.mu.Unlock()
 	for i := 0; i < copies; i++ {
 		dl := delay
